@@ -104,16 +104,20 @@ class DBusClientConnection (txdbus.protocol.BasicDBusProtocol):
                 f._failed(reason)
             return
 
-        for cb in self._dcCallbacks:
+        # callbacks and errbacks are user code: they may cancel a
+        # notification or issue a call while they are being notified
+        for cb in list(self._dcCallbacks):
             cb(self, reason)
 
-        for d, timeout in self._pendingCalls.values():
+        self.objHandler.connectionLost(reason)
+
+        # last, so that calls issued by any of the callbacks fail as well
+        while self._pendingCalls:
+            serial = next(iter(self._pendingCalls))
+            d, timeout = self._pendingCalls.pop(serial)
             if timeout:
                 timeout.cancel()
             d.errback(reason)
-        self._pendingCalls = {}
-
-        self.objHandler.connectionLost(reason)
 
     def notifyOnDisconnect(self, callback):
         """
